@@ -251,11 +251,7 @@ impl ChainSim {
 		self.blocks.push(Block { header, txdata: included });
 		self.undo.push(undo);
 		// drop mempool entries that are now confirmed or conflict with confirmed spends
-		let confirmed = &self.confirmed;
-		let spent_by = &self.spent_by;
-		self.mempool.retain(|m| {
-			!confirmed.contains_key(&m.compute_txid()) && !m.input.iter().any(|i| spent_by.contains_key(&i.previous_output))
-		});
+		self.evict();
 		Ok(height)
 	}
 
@@ -270,6 +266,32 @@ impl ChainSim {
 		for t in u.txids {
 			self.confirmed.remove(&t);
 			self.fees.remove(&t);
+		}
+	}
+
+	/// Drops mempool transactions that conflict with confirmed spends or whose parents can no longer
+	/// exist (neither confirmed nor in the mempool).
+	pub fn evict(&mut self) {
+		loop {
+			let before = self.mempool.len();
+			let ids: std::collections::HashSet<Txid> = self.mempool.iter().map(|m| m.compute_txid()).collect();
+			let confirmed = &self.confirmed;
+			let spent_by = &self.spent_by;
+			let utxos = &self.utxos;
+			self.mempool.retain(|m| {
+				if confirmed.contains_key(&m.compute_txid()) {
+					return false;
+				}
+				m.input.iter().all(|i| {
+					if spent_by.contains_key(&i.previous_output) {
+						return false;
+					}
+					utxos.contains_key(&i.previous_output) || ids.contains(&i.previous_output.txid)
+				})
+			});
+			if self.mempool.len() == before {
+				break;
+			}
 		}
 	}
 
@@ -387,11 +409,7 @@ impl ChainSim {
 		let header = self.make_header(self.tip_hash(), height, 0);
 		self.blocks.push(Block { header, txdata: included });
 		self.undo.push(undo);
-		let confirmed = &self.confirmed;
-		let spent_by = &self.spent_by;
-		self.mempool.retain(|m| {
-			!confirmed.contains_key(&m.compute_txid()) && !m.input.iter().any(|i| spent_by.contains_key(&i.previous_output))
-		});
+		self.evict();
 		height
 	}
 }
